@@ -114,11 +114,13 @@ func newLexer(env *interp.ExecEnv, name string, r io.RuneScanner) *lexer {
 		col:     1,
 	}
 	l.mark(0)
+	vspawn(nil, l)
 	go l.run()
 	return l
 }
 
 func (l *lexer) Lex(lval *yySymType) int {
+	vpoint(l, vRecv)
 	switch tok := (<-l.token).(type) {
 	case token:
 		l.last.Store(tok.Pos())
@@ -133,6 +135,8 @@ func (l *lexer) Lex(lval *yySymType) int {
 }
 
 func (l *lexer) run() {
+	defer vpoint(l, vExit)
+	vpoint(l, vStart)
 	defer func() {
 		close(l.token)
 		if l.done != nil {
@@ -1528,10 +1532,13 @@ func (l *lexer) scanCmdSubst(r rune) bool {
 		}
 		ll.mark(off)
 		ll.last.Store(ll.pos)
+		vspawn(l, ll)
 		go ll.run()
 		yyParse(ll)
+		vpoint(ll, vJoin)
 		<-ll.done
 		if ll.err != nil {
+			vpoint(l, vCopyErr)
 			l.mu.Lock()
 			l.err = ll.err
 			if len(ll.stack) == 0 && r == '`' {
@@ -1688,12 +1695,14 @@ func (l *lexer) emit(typ int) {
 	if typ != '\n' {
 		l.tokLine = l.line
 	}
+	vsend(l)
 	select {
 	case l.token <- tok:
 	case <-l.cancel:
 		// bailout
 		panic(errBailout)
 	}
+	vsendPost(l)
 	l.mark(0)
 }
 
@@ -1719,6 +1728,7 @@ func (l *lexer) read() (rune, error) {
 	r, _, err := l.r.ReadRune()
 	switch {
 	case err != nil:
+		vpoint(l, vReadErr)
 		l.mu.Lock()
 		switch {
 		case err == io.EOF:
@@ -1757,6 +1767,7 @@ func (l *lexer) Error(e string) {
 }
 
 func (l *lexer) error(pos ast.Pos, msg string) {
+	vpoint(l, vErr)
 	l.mu.Lock()
 	defer l.mu.Unlock()
 
@@ -1820,6 +1831,7 @@ func (h *heredoc) inc() {
 }
 
 func (h *heredoc) push(r *ast.Redir) {
+	vhpoint(h, vHPush)
 	h.mu.Lock()
 	h.stack = append(h.stack, r)
 	h.mu.Unlock()
@@ -1832,6 +1844,7 @@ func (h *heredoc) push(r *ast.Redir) {
 
 func (h *heredoc) pop() *ast.Redir {
 	for atomic.LoadUint32(&h.n) != 0 {
+		vhpoint(h, vHPop)
 		h.mu.Lock()
 		if n := len(h.stack); n != 0 {
 			r := h.stack[0]
@@ -1842,6 +1855,7 @@ func (h *heredoc) pop() *ast.Redir {
 		}
 		h.mu.Unlock()
 		// wait
+		vhpoint(h, vHWait)
 		<-h.c
 	}
 	return nil
